@@ -50,9 +50,13 @@ def make_scenario(rng, cls):
         d = rng.choice([1, 2, 3])
         sc["d"] = d
         sc["params"] = {"L": [rng.choice([1.0, 2.0, 0.5]) for _ in range(d)]}
+        if rng.random() < 0.3:
+            sc["params"] = {"L": [rng.choice([1, 2, 4, 10]) for _ in range(d)]}     # integers, as in the class docstring's example
     else:
         from pv.classes import json_params
         sc["params"] = json_params(sampler(rng))
+        if rng.random() < 0.15:
+            sc["params"] = {k_: (int(v_) if isinstance(v_, float) and abs(v_) < 1e6 and v_ == int(v_) else v_) for k_, v_ in sc["params"].items()}
     ev = []
     npts = sc["n_points"]
     for p in range(npts):
